@@ -19,7 +19,7 @@ FieldChoices ==
   [ i  |-> {I("0"), I("-1"), I("9223372036854775807"), I("-2147483649")},
     f  |-> {Atom("float", "0.0"), Atom("float", "1.5"), Atom("float", "0.1"), Atom("float", "-0.0")},
     b  |-> {Atom("bool", "T"), Atom("bool", "F")},
-    s  |-> {Sx(""), Sx("a"), Sx("multibyte"), Sx("L300")},
+    s  |-> {Sx(""), Sx("a"), Sx("multibyte"), Sx("L300"), Sx("json_special"), Sx("bom")},       \* json_special: quotes, backslashes, slashes, braces, a comment look-alike
     e  |-> {En("Color.RED"), En("Color.BLUE")},
     z  |-> {En("Facing.NORTH"), En("Facing.SOUTH")},                              \* an enum whose first member has the value 0
     o  |-> {En("Opp.NORTH"), En("Opp.SOUTH")},                                     \* a string-valued enum whose member names are each other's values
@@ -29,7 +29,7 @@ FieldChoices ==
     dz |-> {Node("dict", "", <<KVt(En("Facing.NORTH"), I("0")), KVt(En("Facing.SOUTH"), I("1"))>>)},
     n  |-> {Inner("1", "a"), Inner("-1", "multibyte")},
     li |-> {Node("list", "", <<>>), Node("list", "", <<I("1"), I("-2147483649")>>), Node("list", "", <<I("9007199254740993"), I("18446744073709551615")>>), NoneT},
-    ls |-> {Node("list", "", <<Sx("multibyte"), Sx("")>>), NoneT},
+    ls |-> {Node("list", "", <<Sx("multibyte"), Sx("")>>), Node("list", "", <<Sx("json_special"), Sx("a")>>), NoneT},
     le |-> {Node("list", "", <<En("Color.BLUE"), En("Color.RED")>>), Node("list", "", <<>>)},
     ln |-> {Node("list", "", <<Inner("1", "a"), Inner("0", "")>>), Node("list", "", <<>>)},
     si |-> {Node("set", "", <<>>), Node("set", "", <<I("1"), I("-1")>>), Node("set", "", <<I("9007199254740992"), I("9007199254740993")>>), NoneT},
